@@ -41,7 +41,7 @@ PROP = dict(
     design_ref="DESIGN.md §6 C30",
     level_text="Theorems about the Lean lexer model (Abra.Lex): every i64 spelled with `_` separators lexes to its digits and the "
                "parser's folded parse gives that integer (MIN via negation), out of range => diagnostic, never a wrapped value; "
-               "processEscapes(escape q s) = s for all Unicode strings and all quote styles; the scan for the closing quote finds "
+               "processEscapes(escape q s) = s for all Unicode strings and all quote styles; the scan for the closing quote (on the text after the opening quote) finds "
                "the printer's quote, hence one-line literals round-trip; indentation stripping removes exactly the common "
                "indentation, from the source text of a block-form literal. Tied to /repo on every run by lexing, parsing and running generated "
                "literals with the real code and diffing token payloads/spans with the model.",
